@@ -181,6 +181,13 @@ struct Conn
 		// the core hop comes after every NAT: in some runs it is a slow finite queue that really drops bulk data
 		if (!plan.c("nohops")) net.core_spec = {queue_hop(plan.c("corebw"), plan.c("corelat"), plan.c("corecap"))};
 		k_taglen = int(std::max<int64_t>(1, std::min<int64_t>(60000, plan.c("taglen", 48))));
+		// a path MTU of their own for every pair of real addresses; whatever a NAT makes a sender look like keeps the default
+		if (plan.c("pairmtu") > 0)
+			for (size_t i = 0; i < nodes.size(); ++i)
+				for (size_t j = 0; j < nodes.size(); ++j)
+					if (i != j)
+						for (auto const& a : nodes[i].ips) for (auto const& b : nodes[j].ips)
+							if (a.is_v4() == b.is_v4()) net.set_mtu(a, b, int(std::max<int64_t>(100, std::min<int64_t>(1475, plan.c("pairmtu")))));
 	}
 
 	void go()
@@ -741,6 +748,7 @@ struct ConnEngine : Engine
 		if (rng.chance(c13 ? 0.35 : 0.15))
 		{
 			p.cfg["taglen"] = rng.pick(std::vector<int64_t>{3000, 20000, 50000});
+			if (rng.chance(0.4)) p.cfg["pairmtu"] = rng.pick(std::vector<int64_t>{200, 400, 800, 1200});
 			if (rng.chance(0.7)) { p.cfg["corebw"] = rng.pick(std::vector<int64_t>{100000, 400000, 2000000}); p.cfg["corecap"] = rng.pick(std::vector<int64_t>{3100, 4700, 9000}); }
 		}
 		int const nc = int(rng.range(1, k_max_clients));
@@ -823,7 +831,7 @@ struct ConnEngine : Engine
 			if (kv.second == 0) continue;
 			std::string const& k = kv.first;
 			auto ends = [&](char const* s) { size_t n = std::strlen(s); return k.size() >= n && k.compare(k.size() - n, n, s) == 0; };
-			if (ends("lat") || ends("dual") || ends("v6") || ends("v6only") || ends("nat") || ends("ip") || ends("corebw") || ends("corecap") || ends("taglen")) { Plan c = p; c.cfg[k] = 0; out.push_back(c); }
+			if (ends("lat") || ends("dual") || ends("v6") || ends("v6only") || ends("nat") || ends("ip") || ends("corebw") || ends("corecap") || ends("taglen") || ends("pairmtu")) { Plan c = p; c.cfg[k] = 0; out.push_back(c); }
 		}
 		for (char const* k : {"nodes", "clients", "acceptors", "udps"})
 			if (p.c(k) > (std::string(k) == "nodes" ? 2 : 1)) { Plan c = p; c.cfg[k] = p.c(k) - 1; out.push_back(c); }
